@@ -396,6 +396,79 @@ func c19Units(tier string) []*Unit {
 	for i, t := range c19Tokens {
 		us = append(us, c19FwdUnit(t, i, tier))
 	}
-	us = append(us, c19VarUnit(), c19InitUnit())
+	us = append(us, c19VarUnit(), c19InitUnit(), c19DynamicAndScriptUnit())
 	return us
+}
+
+// (1) a value that comes from a dynamic variable: the command's output minus ONE trailing line
+// break is the value, and {{shellQuote}} passes it on as one identical argument — also when the
+// output ends in several line breaks; (2) forwarded arguments that look like options, given to a
+// command that is an executable script without a '#!' line: either the script cannot be started
+// at all (the kernel's "exec format error") or it receives exactly the given arguments — a run
+// that succeeds without delivering them is a violation.
+func c19DynamicAndScriptUnit() *Unit {
+	name := "dynamic-variable-values-and-scripts-without-shebang"
+	tf := `version: '3'
+tasks:
+  dyn:
+    vars:
+      D: {sh: 'printf "%s" "$RAW"'}
+    cmds:
+      - '"$VERIF_ARGVDUMP" "$OUT" {{shellQuote .D}}'
+  script:
+    cmds:
+      - ./dump.sh {{.CLI_ARGS}}
+`
+	return &Unit{Name: name, Weight: 1, Custom: func(u *Unit, dir string, deadline time.Time) *vlab.UnitResult {
+		res := &vlab.UnitResult{SigCounts: map[string]int{}, Extra: map[string]any{}}
+		os.RemoveAll(dir)
+		os.MkdirAll(dir, 0o755)
+		os.WriteFile(filepath.Join(dir, "Taskfile.yml"), []byte(tf), 0o644)
+		os.WriteFile(filepath.Join(dir, "dump.sh"), []byte("printf '%s\\n' \"$#\" \"$@\" > \"$OUT\"\n"), 0o755)
+		out := filepath.Join(dir, "argv.out")
+		n := 0
+		var samples []any
+		add := func(v vlab.Violation, args []string) {
+			v.Scenario = name
+			v.Input = map[string]any{"args": args, "taskfile": tf}
+			res.SigCounts[v.Sig]++
+			if res.SigCounts[v.Sig] == 1 {
+				res.Violations = append(res.Violations, v)
+			}
+		}
+		for _, c := range [][2]string{{"x", "x"}, {"x\n", "x"}, {"x\n\n", "x\n"}, {"x\n\n\n", "x\n\n"}, {"a b\n\nc\n", "a b\n\nc"}, {"\n\n", "\n"}, {"x \n", "x "}} {
+			os.Remove(out)
+			args := []string{"dyn"}
+			_, se, rc := RunCLI(dir, []string{"OUT=" + out, "VERIF_ARGVDUMP=" + os.Getenv("VERIF_ARGVDUMP"), "RAW=" + c[0]}, "", args...)
+			n++
+			got, ok := readArgv(out)
+			if len(samples) < 2 {
+				samples = append(samples, map[string]any{"output": c[0], "received": got})
+			}
+			if rc != 0 || !ok || len(got) != 1 || got[0] != c[1] {
+				add(vlab.V("C19", "quoted_value_not_verbatim", "from_dynamic_variable", fmt.Sprintf("dynamic variable whose command prints %q: the command received %s, expected [%q] (status %d %q)", c[0], short(got), c[1], rc, firstN(se, 120))), args)
+			}
+		}
+		for _, vec := range [][]string{{"plain"}, {"-n", "x"}, {"-x"}, {"--", "a"}, {"+e", "b"}, {"-e", "-u", "c d"}, {"--verbose"}} {
+			os.Remove(out)
+			args := append([]string{"script", "--"}, vec...)
+			_, se, rc := RunCLI(dir, []string{"OUT=" + out}, "", args...)
+			n++
+			var got []string
+			b, err := os.ReadFile(out)
+			if err == nil && len(b) > 0 {
+				got = strings.Split(strings.TrimSuffix(string(b), "\n"), "\n")
+			}
+			want := append([]string{fmt.Sprint(len(vec))}, vec...)
+			switch {
+			case rc != 0 && err != nil:
+				// the script could not be started: nothing was delivered, nothing was delivered wrongly
+			case !eqVec(got, want):
+				add(vlab.V("C19", "cli_args_not_verbatim", "script_without_shebang:"+vecClass(vec), fmt.Sprintf("task script -- %q: the script received %s, expected %s (status %d %q)", vec, short(got), short(want), rc, firstN(se, 120))), args)
+			}
+		}
+		res.Extra["samples"] = samples
+		res.Stats = vlab.Stats{Scenario: name, Execs: n, States: n, Transitions: n, Outcomes: 2, Exhaustive: true}
+		return res
+	}}
 }
